@@ -735,9 +735,21 @@ def inline_temporaries(func, known_locals):
             # the value must mean the same where it is used: anything but
             # plain locals and constants may only move over statements that
             # neither call, await nor store into objects
-            fragile = any(isinstance(y, (ast.Attribute, ast.Subscript,
-                                         ast.Call, ast.Starred))
+            fragile = any(isinstance(y, (ast.Subscript, ast.Call,
+                                         ast.Starred))
                           for y in ast.walk(v))
+            # attribute chains rooted in a module-level name (an enum
+            # member, a class constant: ECCmd.NOP.value) mean the same
+            # everywhere; those rooted in self or a local do not
+            local_names = set(local_order(func)) | set(_params(func))
+            for y in ast.walk(v):
+                if isinstance(y, ast.Attribute):
+                    root = y
+                    while isinstance(root, ast.Attribute):
+                        root = root.value
+                    if not (isinstance(root, ast.Name)
+                            and root.id not in local_names):
+                        fragile = True
             if fragile:
                 last = None
                 for j in range(idx + 1, len(holder)):
